@@ -835,3 +835,310 @@ func ruleRaiseOnOwnState(c *Ctx) {
 	}
 	c.check(n >= 40 && bad == 0, R, "host-functions-raise-on-their-own-state", pos, fmt.Sprintf("all %d raises in host functions have the function's own state as receiver", n), fmt.Sprintf("%s raises an error on a state other than the one it runs on: the message is pushed onto that thread's value stack (and positioned from its frames) while the panic unwinds the calling thread — after the caller's pcall has caught it, the other thread's pending resume returns an extra leading value", who))
 }
+
+// ruleSharedRand: package math/rand keeps one process-wide generator behind its top-level functions.
+// A state that draws from it (or seeds it) changes what every other state computes next. The math
+// library may use the top-level functions only to create its own generator when the library is opened;
+// math.random/randomseed work on that per-state generator.
+func ruleSharedRand(c *Ctx) {
+	const R = "R13-globals"
+	p := c.P
+	n, bad := 0, ""
+	var first ssa.Instruction
+	for _, fn := range p.srcFuncs {
+		if fn.Pkg == nil || fn.Pkg.Pkg.Path() != luaPath {
+			continue
+		}
+		allInstrs(fn, func(in ssa.Instruction) {
+			pk, name, ok := stdCall(in)
+			if !ok || pk != "math/rand" {
+				return
+			}
+			n++
+			isMethod := false
+			for _, ch := range name {
+				if ch == '.' {
+					isMethod = true
+				}
+			}
+			if isMethod {
+				return // a method of a *rand.Rand value: per-state
+			}
+			if fname(fn) == "OpenMath" && (name == "New" || name == "NewSource" || name == "Int63") {
+				return
+			}
+			if bad == "" {
+				bad = fname(fn) + " calls rand." + name
+				first = in
+			}
+		})
+	}
+	c.Sites += n
+	pos := "-"
+	if first != nil {
+		pos = p.ipos(first)
+	}
+	c.check(n > 0 && bad == "", R, "math/rand:process-wide-generator-not-used-at-run-time", pos, "math.random and math.randomseed work on the state's own generator", bad+": the top-level functions of math/rand share one generator between all states of the process — what state A draws after math.randomseed(42) depends on how often state B called math.random in between")
+}
+
+// ruleSegIdxWidth: the auto-growing call stack has CallStackSize/FramesPerSegment segments, a number
+// only bounded by the int option. The type that counts them must not be narrower than 32 bits: with 16
+// bits `segIdx(len(segments)-1)` truncates and Push reports an overflow (as a raw Go panic) at a depth
+// far below the configured limit.
+func ruleSegIdxWidth(c *Ctx) {
+	const R = "R12-full"
+	p := c.P
+	obj := p.Obj("lua", "segIdx")
+	c.Sites++
+	if obj == nil {
+		c.ok(R, "segIdx:wide-enough-for-any-CallStackSize", "-", "the segmented stack does not use a dedicated index type")
+		return
+	}
+	bt, ok := obj.Type().Underlying().(*types.Basic)
+	wide := false
+	if ok {
+		switch bt.Kind() {
+		case types.Int, types.Uint, types.Int32, types.Uint32, types.Int64, types.Uint64, types.Uintptr:
+			wide = true
+		}
+	}
+	c.check(wide, R, "segIdx:wide-enough-for-any-CallStackSize", p.pos(obj.Pos()), "at least 32 bits", "the segment index type is narrower than 32 bits: with CallStackSize above 8*65536 the conversion of len(segments)-1 truncates, and recursion within the configured limit dies with the raw Go panic 'lua callstack overflow'")
+}
+
+// ruleCompileRecursionBounded: the compiler recurses over the syntax tree; a Go stack overflow cannot be
+// recovered and kills the embedding process, so every recursive cycle among the functions of compile.go
+// must pass through a function that counts the nesting and raises beyond a constant bound
+// (maxExprDepth). The rule removes those guard functions from the static call graph of compile.go and
+// reports every cycle that is left.
+func ruleCompileRecursionBounded(c *Ctx) {
+	const R = "R08-terminate"
+	p := c.P
+	p.computeNoReturn()
+	lim, ok := p.intConst("lua", "maxExprDepth")
+	if !ok {
+		c.bad(R, "compile:recursion-depth-bounded", "-", "the compiler has no nesting bound (maxExprDepth): `return not not not … x` with a million levels, or a million nested do-blocks, recurses until the Go stack overflows — a fatal error that no recover catches, so loading a byte string kills the process")
+		return
+	}
+	var fns []*ssa.Function
+	in := map[*ssa.Function]bool{}
+	for _, fn := range p.srcFuncs {
+		if fn.Pkg != nil && fn.Pkg.Pkg.Path() == luaPath && fn.Parent() == nil && len(p.pos(fn.Pos())) > 11 && p.pos(fn.Pos())[:11] == "compile.go:" {
+			fns = append(fns, fn)
+			in[fn] = true
+		}
+	}
+	// static call edges inside compile.go and their transitive closure
+	edges := map[*ssa.Function]map[*ssa.Function]bool{}
+	for _, fn := range fns {
+		edges[fn] = map[*ssa.Function]bool{}
+		withClosures(fn, func(f *ssa.Function) {
+			allInstrs(f, func(x ssa.Instruction) {
+				if sc := staticCallee(x); sc != nil && in[sc] {
+					edges[fn][sc] = true
+				}
+			})
+		})
+	}
+	reaches := func(from, to *ssa.Function) bool {
+		seen := map[*ssa.Function]bool{}
+		stack := []*ssa.Function{from}
+		for len(stack) > 0 {
+			f := stack[len(stack)-1]
+			stack = stack[:len(stack)-1]
+			if f == to {
+				return true
+			}
+			if seen[f] {
+				continue
+			}
+			seen[f] = true
+			for n := range edges[f] {
+				stack = append(stack, n)
+			}
+		}
+		return false
+	}
+	guard := map[*ssa.Function]bool{}
+	for _, fn := range fns {
+		fn := fn
+		g := p.G(fn)
+		allInstrs(fn, func(x ssa.Instruction) {
+			b, ok := x.(*ssa.BinOp)
+			if !ok || (b.Op != token.GTR && b.Op != token.GEQ) {
+				return
+			}
+			if k, ok := constInt(b.Y); !ok || k != lim {
+				return
+			}
+			// the true branch must not recurse: it raises or returns
+			for _, r := range *b.Referrers() {
+				if iff, ok := r.(*ssa.If); ok {
+					t := iff.Block().Succs[0]
+					// beyond the bound nothing of the compiler is called any more (the branch raises or returns)
+					recurses := g.walk(t, 0, nil, func(y ssa.Instruction) bool {
+						sc := staticCallee(y)
+						return sc != nil && in[sc] && !p.noret[sc] && reaches(sc, fn)
+					})
+					if !recurses && g.LiveBlock(iff.Block()) {
+						guard[fn] = true
+					}
+				}
+			}
+		})
+	}
+	// edges without guards
+	adj := map[*ssa.Function][]*ssa.Function{}
+	for _, fn := range fns {
+		if guard[fn] {
+			continue
+		}
+		seen := map[*ssa.Function]bool{}
+		withClosures(fn, func(f *ssa.Function) {
+			allInstrs(f, func(x ssa.Instruction) {
+				if sc := staticCallee(x); sc != nil && in[sc] && !guard[sc] && !seen[sc] {
+					if sc == fn && f == fn {
+						// self recursion along a link: f(…, p.Parent, …) with p its own parameter in the same
+						// position walks a finite chain (the enclosing function contexts, themselves nesting levels)
+						chain := false
+						args := x.(*ssa.Call).Call.Args
+						for i, a := range args {
+							if u, ok := a.(*ssa.UnOp); ok && u.Op == token.MUL {
+								if fa, ok := u.X.(*ssa.FieldAddr); ok && i < len(fn.Params) && fa.X == ssa.Value(fn.Params[i]) {
+									chain = true
+								}
+							}
+						}
+						if chain {
+							return
+						}
+					}
+					seen[sc] = true
+					adj[fn] = append(adj[fn], sc)
+				}
+				// method values / function values passed along (compileExprWithPropagation(…, context.Code.PropagateKMV))
+			})
+		})
+	}
+	// find a cycle (DFS colouring)
+	color := map[*ssa.Function]int{}
+	var cycle []string
+	var dfs func(f *ssa.Function, path []*ssa.Function) bool
+	dfs = func(f *ssa.Function, path []*ssa.Function) bool {
+		color[f] = 1
+		path = append(path, f)
+		for _, n := range adj[f] {
+			if color[n] == 1 {
+				k := 0
+				for i, x := range path {
+					if x == n {
+						k = i
+					}
+				}
+				for _, x := range path[k:] {
+					cycle = append(cycle, fname(x))
+				}
+				return true
+			}
+			if color[n] == 0 && dfs(n, path) {
+				return true
+			}
+		}
+		color[f] = 2
+		return false
+	}
+	for _, fn := range fns {
+		if color[fn] == 0 && !guard[fn] && dfs(fn, nil) {
+			break
+		}
+	}
+	ng := 0
+	for range guard {
+		ng++
+	}
+	c.Sites += len(fns)
+	c.check(ng > 0 && len(cycle) == 0, R, "compile:recursion-depth-bounded", "-", fmt.Sprintf("every recursive cycle among the %d functions of compile.go passes through one of %d depth-counting functions", len(fns), ng), fmt.Sprintf("the functions %v of compile.go call each other recursively without passing through a function that counts the nesting against maxExprDepth: a deeply nested input recurses until the Go stack overflows (fatal, not recoverable) instead of producing a compile error", cycle))
+}
+
+// ruleSmallGuards: F76 (0 and -0 are different constants: ConstIndex refines its equality test with the
+// sign bit) and F77 (GetStack hands out a frame only when the walk ends exactly at the requested level;
+// a level that falls among frames replaced by tail calls is unknown, not the bottom frame).
+func ruleConstSign(c *Ctx) {
+	const R = "R01-alloc"
+	p := c.P
+	fn := c.need(R, "lua", "(*funcContext).ConstIndex")
+	if fn == nil {
+		return
+	}
+	sign := false
+	allInstrs(fn, func(in ssa.Instruction) {
+		if pk, n, ok := stdCall(in); ok && pk == "math" && (n == "Signbit" || n == "Float64bits") {
+			sign = true
+		}
+	})
+	c.Sites++
+	c.check(sign, R, "ConstIndex:zero-constants-distinguished-by-sign", p.pos(fn.Pos()), "the reuse test looks at the sign bit", "ConstIndex reuses a pooled constant whenever == holds: 0 and -0 share one slot, so `local a, b = 0, -0; return 1/b` yields +inf")
+}
+
+func ruleGetStackLevel(c *Ctx) {
+	const R = "R17-where"
+	p := c.P
+	fn := c.need(R, "lua", "(*LState).GetStack")
+	if fn == nil {
+		return
+	}
+	g := p.G(fn)
+	okc, n := true, 0
+	allInstrs(fn, func(in ssa.Instruction) {
+		r, ok := in.(*ssa.Return)
+		if !ok || len(r.Results) != 2 || !g.Live(in) {
+			return
+		}
+		if b, isK := constBool(r.Results[1]); !isK || !b {
+			return
+		}
+		n++
+		exact := false
+		for _, cd := range g.CondsAtInstr(in) {
+			if b, ok := cd.V.(*ssa.BinOp); ok && b.Op == token.EQL && cd.Sense {
+				if k, ok := constInt(b.Y); ok && k == 0 {
+					if _, isPhi := stripConv(b.X).(*ssa.Phi); isPhi {
+						exact = true
+					}
+				}
+			}
+		}
+		if !exact {
+			okc = false
+		}
+	})
+	c.Sites++
+	c.check(n > 0 && okc, R, "GetStack:frame-only-at-the-exact-level", p.pos(fn.Pos()), "a frame is returned only when the level count ends at 0", "GetStack returns a frame although the level count did not end at 0 (it went negative among frames replaced by tail calls): error(msg, 2) raised in a tail-called function is positioned at the bottom frame — the main chunk's line — instead of carrying no position")
+}
+
+// ruleClosedFirst: 'operations on a closed handle raise an error' — in every operation on a handle the
+// closed test comes before anything that can answer: no return is reachable without passing
+// errorIfFileIsClosed (a write on a closed read-only handle must raise, not return nil, "opened for
+// only reading").
+func ruleClosedFirst(c *Ctx) {
+	const R = "R19-closed"
+	p := c.P
+	guard := p.Fn("lua", "errorIfFileIsClosed")
+	if guard == nil {
+		c.und(R, "closed-first:anchor", "-", "errorIfFileIsClosed not found")
+		return
+	}
+	for _, name := range []string{"fileWriteAux", "fileReadAux", "fileFlushAux", "fileSetVBuf", "fileLines", "fileSeek"} {
+		fn := p.Fn("lua", name)
+		if fn == nil {
+			continue
+		}
+		g := p.G(fn)
+		okc, witness := g.MustPassBefore(fn.Blocks[0], 0, func(in ssa.Instruction) bool { return isCallTo(in, guard) }, isReturn)
+		pos := p.pos(fn.Pos())
+		if witness != nil {
+			pos = p.ipos(witness)
+		}
+		c.Sites++
+		c.check(okc, R, name+":closed-test-before-any-answer", pos, "every return passes the closed test", name+" can answer without having tested whether the handle is closed: on a closed handle of the wrong kind (write on a handle opened for reading) it returns nil and a message instead of raising")
+	}
+}
